@@ -372,8 +372,20 @@ func (f *Frame) enterLoop(h *ssa.BasicBlock, li *loopInfo, live []inEdge, header
 		cur := c.heapGet(st, k, c.eng.keySort(k))
 		c.setHeap(st, k, c.fresh("loopheap", cur.Sort))
 	}
-	// ghost call records are unknown in an arbitrary iteration
+	// ghost call records of the calls the loop body can make are unknown in
+	// an arbitrary iteration; records of other calls are unaffected
+	names := map[string]bool{}
+	for b := range li.body {
+		for _, in := range b.Instrs {
+			if ci, ok := in.(ssa.CallInstruction); ok {
+				c.eng.callRecordNames(ci.Common(), names, 0, map[*ssa.Function]bool{})
+			}
+		}
+	}
 	for k := range st.Ghost {
+		if !names["*"] && !names[ghostKeyName(k)] {
+			continue
+		}
 		if strings.HasPrefix(k, "result:") {
 			st.Ghost[k] = c.fresh("loopghost", SInt)
 		} else if strings.HasPrefix(k, "res:") {
@@ -382,7 +394,14 @@ func (f *Frame) enterLoop(h *ssa.BasicBlock, li *loopInfo, live []inEdge, header
 			st.Ghost[k] = c.fresh("loopghost", SBool)
 		}
 	}
+	if st.GhostUnknown && st.GhostLoopNames == nil {
+		names["*"] = true // everything was already unknown
+	}
+	for k := range st.GhostLoopNames {
+		names[k] = true
+	}
 	st.GhostUnknown = true
+	st.GhostLoopNames = names
 	for cell := range cells {
 		st.Cells[cell] = c.freshLeaves("loopcell_"+cell.Name, cell.Typ)
 		st.assume(c, typeInv(cell.Typ, st.Cells[cell]))
